@@ -375,10 +375,12 @@ class IntegerSequence(SequenceBase):
                     self.p_start = (
                         self.p_stop - self.i_step * (reps - 1))
             else:
-                remainder = (int(self.p_context_stop - self.p_start) %
+                # count back from the stop point: the start is the first
+                # on-sequence point >= the context start point
+                remainder = (int(self.p_stop - self.p_start) %
                              int(self.i_step))
                 self.p_start = (
-                    self.p_context_start - IntegerInterval.from_integer(
+                    self.p_context_start + IntegerInterval.from_integer(
                         remainder)
                 )
 
